@@ -14,6 +14,7 @@ import (
 	"path/filepath"
 	"runtime"
 	"sort"
+	"strconv"
 	"strings"
 	"sync"
 	"testing"
@@ -394,4 +395,15 @@ func Goid() uint64 {
 		id = id*10 + uint64(ch-'0')
 	}
 	return id
+}
+
+// Shard returns this process's shard index and the number of shards (for
+// enumerators that split their space over processes).
+func Shard() (int, int) {
+	sh, _ := strconv.Atoi(os.Getenv("VERIF_SHARD"))
+	n, _ := strconv.Atoi(os.Getenv("VERIF_SHARDS"))
+	if n <= 0 {
+		return 0, 1
+	}
+	return sh % n, n
 }
